@@ -179,7 +179,7 @@ Next ==
             ELSE Unch
        [] e.ev = "commit_buffer" ->
             \* an insert that was deleted again inside the transaction is only an existence check: it writes nothing
-            /\ txns' = [txns EXCEPT ![e.txn].wrote = {e.buffer[i].k : i \in 1..Len(e.buffer)}
+            /\ txns' = [txns EXCEPT ![e.txn].wrote = {e.buffer[i].k : i \in {j \in 1..Len(e.buffer) : e.buffer[j].val >= 0}}
                                                       \ {k \in txns[e.txn].inserted : txns[e.txn].buf[k] = 0}]
             /\ UNCHANGED <<truth, proj, held, acked, hasTruth, kind, lossless, lostCommit, fixp>>
        [] e.ev = "api_ret" ->
